@@ -759,12 +759,22 @@ class DataFrame(_HasIndex):
                 return False
             symbolic = any(isinstance(self._c[b][k], Sym) for b in bys for k in (i, j))
             return bool(ctx.fresh_bool("sorttie")) if symbolic else False
-        order = []
-        for i in range(n):
-            pos = len(order)
-            while pos > 0 and before(i, order[pos - 1]):
-                pos -= 1
-            order.insert(pos, i)
+        memo = key = None
+        if not stable and SORT_NONDET[0] and ctx is not None:
+            # as in pandas/numpy, the (unstable) order is a function of the input
+            memo = ctx.__dict__.setdefault("_sort_memo", {})
+            key = (tuple(bys), tuple(asc), tuple(symnp._term_key(self._c[b][i]) for b in bys for i in range(n)))
+        if memo is not None and key in memo:
+            order = list(memo[key])
+        else:
+            order = []
+            for i in range(n):
+                pos = len(order)
+                while pos > 0 and before(i, order[pos - 1]):
+                    pos -= 1
+                order.insert(pos, i)
+            if memo is not None:
+                memo[key] = list(order)
         d = DataFrame({c: [v[i] for i in order] for c, v in self._c.items()},
                       None if ignore_index else [self.index[i] for i in order], self._dt)
         if inplace:
@@ -835,7 +845,7 @@ class DataFrame(_HasIndex):
         raise Unsupported("DataFrame.to_csv (codec) outside the VFS")
 
 
-SORT_NONDET = [False]  # see symnp.ARGSORT_NONDET
+SORT_NONDET = [True]  # see symnp.ARGSORT_NONDET (pandas' default quicksort inherits numpy's unstable sort)
 SAMPLE_MODE = ["nondet"]
 
 
